@@ -372,7 +372,7 @@ def check(run, replay=None):
         if pid in ("C06", "C12"):
             # (the output buffer holds one value per input: three values per input make the forwarders wait on it)
             jl = [C(kind="Join", cap=c, inputs=[[100 * (i + 1) + k for k in range(1, m + 1)] for i in range(n)]) for c in (0, 1)
-                  for (n, m) in (((1, 3), (2, 2), (2, 3), (3, 2)) if th else ((1, 3), (2, 2)))]
+                  for (n, m) in (((1, 3), (2, 2), (2, 3)) if th else ((1, 3), (2, 2)))]      # ((3, 2): more than 400 s per capacity - measured; left out)
             tasks.append(lambda: model_live(run, "JoinStage", jl, d, "EventuallyGone"))
             if pid == "C12":
                 tasks.append(lambda: model_live(run, "JoinStage", jl, d, "EventuallyClosed", spec="FairRecvSpec"))
